@@ -1342,6 +1342,82 @@ def c02_corpus(rng, E, quick, fixed):
     return out
 
 
+def to_instances(e):
+    """split a call's compression events into chains (each `in` is the previous `out`): purely structural"""
+    inst, cur = [], None
+    for c in e["cfs"]:
+        if cur is None or c["a"] != cur["a"] or c["in"] != cur["c"][-1]["out"]:
+            cur = {"a": c["a"], "c": []}
+            inst.append(cur)
+        cur["c"].append({"in": c["in"], "blk": c["blk"], "out": c["out"]})
+    e["cfs"] = {"k": "inst", "c": inst}
+
+
+def c02_scripts(ctx, E, quick):
+    rng = ctx.rng
+    per = {}
+    lens_q = [0, 1, 7, 8, 9, 15, 16, 17, 55, 56, 63, 64, 65]
+    lens_t = lens_q + [31, 32, 33, 72, 73, 111, 112, 119, 120, 127, 128, 129]
+    for m in ("descrypt", "bigcrypt", "bsdicrypt", "md5crypt", "nt", "sha256crypt", "sha512crypt", "sha1crypt", "sunmd5"):
+        if m not in E or (quick and m == "sunmd5"):      # sunmd5: >= 4096 rounds, ~50k compressions per call: thorough only
+            continue
+        reqs = []
+        lens = list(lens_q if quick else lens_t)
+        if m in ("descrypt", "bigcrypt", "bsdicrypt", "md5crypt", "nt", "sha1crypt"):
+            lens += [130, 200, 511] if quick else [130, 200, 255, 256, 257, 400, 511]
+        if m == "sunmd5":
+            lens = [9] if quick else [0, 1, 9, 64, 70, 200, 511]
+        if quick and m not in ("sunmd5",):
+            lens = [n for i, n in enumerate(lens) if i % 2 == 0 or n in (8, 9, 64, 511)]
+        for n in lens:
+            if m in ("descrypt", "bigcrypt"):
+                s = gen.salt(rng, 2) + (gen.salt(rng, 22) if (m == "bigcrypt" and rng.random() < 0.7) else "")
+            elif m == "bsdicrypt":
+                s = "_" + rng.choice(("/...", "3...", "J9..", "Z1..")) + gen.salt(rng, 4)
+            elif m == "md5crypt":
+                s = "$1$" + gen.salt(rng, rng.choice((0, 1, 5, 8, 11)))
+            elif m == "nt":
+                s = "$3$"
+            elif m in ("sha256crypt", "sha512crypt"):
+                s = gen.PREFIX[m] + "rounds=%d$" % rng.choice((1000, 1001, 1003, 1007)) + gen.salt(rng, rng.choice((0, 1, 7, 16, 19)))
+            elif m == "sha1crypt":
+                s = "$sha1$%d$%s" % (rng.choice((1, 2, 3, 17, 24)), gen.salt(rng, rng.choice((1, 8, 64))))
+            else:
+                s = rng.choice(("$md5$", "$md5,")) + rng.choice(("", "rounds=2$", "rounds=11$")) + gen.salt(rng, rng.choice((0, 4, 8))) + rng.choice(("", "$", "$$"))
+            P = bytearray(gen.rand_phrase(rng, n))
+            if n and rng.random() < 0.5:
+                P[rng.randrange(n)] = rng.choice((0x80, 0xff))
+            reqs.append((bytes(P), s))
+        per[m] = reqs
+    allreq = [(m, ph, s) for m, rq in per.items() for (ph, s) in rq]
+    cmds = ["cfs 1", "logpc 1", "obj 0 0 0"] + ["crypt_rn 0 %s %s 32768" % (hx(ph), hx(s)) for (_, ph, s) in allreq]
+    evs = [e for e in ctx.run_xcv(cmds) if e.get("e") in ("crypt_rn", "Fault")]
+    calls = [e for e in evs if e.get("e") == "crypt_rn"]
+    if len(calls) != len(allreq):
+        raise Broken("script pass lost calls")
+    chunks = {}
+    for (m, ph, s), e in zip(allreq, calls):
+        if m == "sunmd5":
+            to_instances(e)
+        else:
+            e["cfs"] = {"k": "flat", "c": e.get("cfs", [])}
+        chunks.setdefault(m, []).append(e)
+    names = list(chunks)
+    # large traces: split the heavy methods further
+    parts = []
+    for m in names:
+        step = (1 if m == "sunmd5" else 3) if m in ("sha512crypt", "sha256crypt", "sunmd5") else 40
+        for i in range(0, len(chunks[m]), step):
+            parts.append((m, chunks[m][i:i + step]))
+    vs = ctx.validate_many([p[1] for p in parts], "TraceScripts.tla", "TraceScripts.cfg", "scr", par=6, timeout=3000)
+    for v, (m, ch) in zip(vs, parts):
+        for x in v["viol"]:
+            ev = ch[x["l"] - 1]
+            c = compact({k: val for k, val in ev.items() if k not in ("cfs",)})
+            ctx.violation(x["p"], "%s failed for %s (phrase of %d bytes)" % (x["n"], m, ev.get("pl", -1)), c)
+    return vs, sum(v["cnt"]["calls"] for v in vs)
+
+
 @prop("C02")
 def c02(ctx):
     quick = ctx.tier == "quick"
@@ -1384,9 +1460,15 @@ def c02(ctx):
         e["o"] = 50               # a different object: its abstract state is not mixed with the tree's
     ev = ctx.run_xcv(cmds)
     v = judge(ctx, rel + ev, "rel", cfgev)
+    # published-algorithm half: the method's script (Scripts.tla) evaluated by TLC on (phrase, setting) --
+    # completely for the DES family, over the compression graph observed in the call for the digest-based methods
+    sv, nscript = c02_scripts(ctx, E, quick)
     attribute(ctx)
     cov = mc_coverage(ctx, 1, 1, [v], ev, {"corpus_fixed": len(fixed), "corpus_seeded": len(seeded), "released_source": src,
-                                         "predicates": ["Released: byte-identical to the released libcrypt.so.1 4.4.33 on the corpus"]})
+                                         "script_calls_evaluated_by_tlc": nscript,
+                                         "scripted_methods": ["descrypt", "bigcrypt", "bsdicrypt", "md5crypt", "sha256crypt", "sha512crypt", "sunmd5", "sha1crypt", "nt"],
+                                         "predicates": ["Released: byte-identical to the released libcrypt.so.1 4.4.33 on the corpus",
+                                                        "Script: equals the published algorithm evaluated by TLC (Scripts.tla)"]})
     cov["states"] = v["tlc"].get("distinct", 1)
     cov["transitions"] = v["tlc"].get("generated", 1)
     return "model_checking", cov, ASSUME_COMMON + ["the released libxcrypt 4.4.33 is a conforming implementation of the published algorithms "
